@@ -1,6 +1,6 @@
 (** * C02 -- Optimisation never changes observable behaviour. *)
 From Coq Require Import String ZArith List Bool Arith.
-From NSL Require Import Model.PyNum Model.IR Model.VM Model.WfIR Model.Opt Proofs.WfIRProofs Proofs.OptProofs.
+From NSL Require Import Model.PyNum Model.IR Model.VM Model.WfIR Model.Opt Proofs.WfIRProofs Proofs.OptProofs Proofs.ForwardProofs Harness.FwdLib.
 From NSLDyn Require Gen_Shapes.
 Import ListNotations.
 
@@ -49,5 +49,44 @@ Theorem C02_load_after_store_delivers_stored : forall F pc fr st sc v src w iS i
   exists fr2, step F pc1 fr1 st1 iL = StNext (S pc1) fr2 st1 /\ rget fr2 (i_ref iL) = Ok w.
 Proof. exact load_after_store_delivers_stored. Qed.
 
+(** PARTIAL (semantic preservation of OptimizeLoadAfterStore on straight-line code, every instruction kind).
+    (a) For every instruction list without branches -- loads, stores, arithmetic, casts, element / member accesses, vector
+        sets, shuffles, constructors, declarations in any mix --, with distinct references and operands defined earlier:
+        if it runs on the VM model from one state to another, the list the pass makes of it (forwarded loads removed, every
+        use renamed through the map, chains resolved) runs from the same state to a state with the same variables,
+        arguments, globals and heap and the same value in every register that was not removed.
+    (b) For every function consisting of one block that ends in a return: whatever the function returns, with whatever
+        final VM state, the function [opt_load_after_store] makes of it returns the same value with the same state, for
+        the same fuel.  [opt_load_after_store] is the Gallina function compared for equality with the real optimised IR
+        on every run; [fwd_fragment_b] decides the hypotheses on the real IR (evaluated by the check on every function).
+    Missing for the full statement: functions with several blocks or calls (the replacements applied function-wide), and
+    the same for OptimizeConstantCasts beyond the value-level fact below. *)
+Theorem C02_forwarding_sound_on_straight_line_code_partial : forall (F F' : ifunc) code pc pc' fr vs fr1 vs1,
+  forallb (fun i => negb (is_branch i)) code = true -> NoDup (map i_ref code) -> operands_earlier code -> scopes_agree None code ->
+  sruns F pc code fr vs fr1 vs1 ->
+  let m := las_scan None code [] in
+  exists fr1', sruns F' pc' (apply_block m code) fr vs fr1' vs1 /\ vars fr1' = vars fr1 /\ fargs fr1' = fargs fr1 /\
+               forall r, ~ In r (keys m) -> rlookup r (regs fr1') = rlookup r (regs fr1).
+Proof. exact forwarding_sound_on_straight_line_code. Qed.
+
+Theorem C02_forwarding_preserves_single_block_functions_partial : forall (P : program) (F : ifunc), fwd_fragment_b F = true ->
+  forall fuel fr vs w vs1, run fuel P F 0 fr vs = Done w vs1 -> run fuel P (opt_load_after_store F) 0 fr vs = Done w vs1.
+Proof. exact fwd_fragment_sound. Qed.
+
+(** non-vacuity: the chain example above is inside the fragment, and the pass removes both forwarded loads *)
+Example C02_fragment_example :
+  let F := {| fn_name := "f"%string; fn_args := [("a"%string, ITInt false)]; fn_ret := ITInt false; fn_consts := [];
+              fn_blocks := [{| b_ref := 0; b_code :=
+                [ {| i_ref := 1; i_ty := ITInt false; i_body := ILoad SArg (VIndex 0) |};
+                  {| i_ref := 2; i_ty := ITInt false; i_body := IStore SLocal (VName "x") 1 |};
+                  {| i_ref := 3; i_ty := ITInt false; i_body := ILoad SLocal (VName "x") |};
+                  {| i_ref := 4; i_ty := ITInt false; i_body := IStore SLocal (VName "y") 3 |};
+                  {| i_ref := 5; i_ty := ITInt false; i_body := ILoad SLocal (VName "y") |};
+                  {| i_ref := 6; i_ty := ITInt false; i_body := IRet (Some 5) |} ] |}] |} in
+  fwd_fragment_b F = true /\ length (flat_code (opt_load_after_store F)) = 4 /\
+  run 10 {| p_funcs := [F]; p_globals := [] |} F 0 {| regs := []; vars := []; fargs := [VInt 7] |} {| globals := []; hp := [] |} = Done (VInt 7) {| globals := []; hp := [] |}.
+Proof. vm_compute. repeat split; reflexivity. Qed.
+
+Eval compute in "ASSUMPTIONS C02_forwarding_preserves_single_block_functions_partial"%string. Print Assumptions C02_forwarding_preserves_single_block_functions_partial.
 Eval compute in "ASSUMPTIONS C02_optimised_wellformed_never_undefined_partial"%string. Print Assumptions C02_optimised_wellformed_never_undefined_partial.
 Eval compute in "END"%string.
